@@ -73,7 +73,10 @@ def cases_for(prop, tier, seed):
     if prop == "C04":
         return gen.fam_errors(g, "C04-err", 150 * k)
     if prop == "C05":
-        return gen.fam_unsub_positions(g, "C05-unsub", 40 * k) + gen.fam_hot(g, "C05-hot", 100 * k)
+        return (gen.fam_unsub_positions(g, "C05-unsub", 40 * k) + gen.fam_hot(g, "C05-hot", 100 * k) +
+                # unsubscribe after a terminal / twice must have no effect on OTHER subscribers of the same subject either
+                # (publish re-connected after its source completed, subscribers that come and go around the terminal)
+                gen.fam_connectables(g, "C05-conn", 30 * k) + gen.fam_subjects(g, "C05-subj", 15 * k) + gen.fam_late_unsub(g, "C05-late"))
     if prop == "C06":
         return (gen.fam_teardown(g, "C06-td", 100 * k) + [c for c in gen.fam_combinators(g, "C06-comb", 60 * k) if "flat_map" in c or "(unsub" in c] +
                 # the shared source of a connectable is a source subscribed on the subscribers' behalf: it must stop when the last one left
@@ -86,7 +89,7 @@ def cases_for(prop, tier, seed):
         return (gen.fam_subjects(g, "C10-subj", 100 * k, exhaustive_len=(4 if T else 3)) +
                 [c for c in gen.fam_reentrant(g, "C10-re", 0) if "(sub (ref a) (react" in c])
     if prop == "C13":
-        return gen.fam_connectables(g, "C13-conn", 150 * k) + gen.fam_conn_reentrant(g, "C13-re", 0)
+        return gen.fam_connectables(g, "C13-conn", 150 * k) + gen.fam_conn_reentrant(g, "C13-re", 0) + gen.fam_late_unsub(g, "C13-late")
     if prop == "C14":
         return gen.fam_resubscribe(g, "C14-resub", 100 * k)
     if prop == "C17":
